@@ -8,7 +8,7 @@ driver for the exchange model (engine `exchange`).  Time in ticks of 1/1024 s.
 
 ops:  `C<k>:<timeout>:<redo>:<tx>:<rx>`  create, k = e (Exchange) x (Exchanger) n (Exchangent), `N` = not given
       `S<arg>` start (`SN` = no argument)   `A<dt>` advance the stamper   `P` process
-      `T<tx>` send (`TN` = send())   `R<rx>` receive   `F` finish   `X` fail   `U` run
+      `T<tx>` send (`TN` = send())   `Y<tx>` transmit   `M<tx>` message   `R<rx>` receive   `F` finish   `X` fail   `U` run
 -/
 namespace Ioflo.Drv.Exchange
 open Ioflo.Proto Ioflo.Exchange
@@ -37,7 +37,9 @@ def op? (w : String) : Option Op :=
     | _ => none
   | 'S' :: r => (optNat? (String.ofList r)).map .start
   | 'A' :: r => (String.ofList r).toInt?.map .advance
-  | 'T' :: r => (optNat? (String.ofList r)).map .send
+  | 'T' :: r => (optNat? (String.ofList r)).map (.send .send)
+  | 'Y' :: r => (optNat? (String.ofList r)).map (.send .transmit)
+  | 'M' :: r => (optNat? (String.ofList r)).map (.send .message)
   | 'R' :: r => (String.ofList r).toNat?.map .receive
   | _ => none
 
